@@ -51,7 +51,7 @@ Definition rop_of (p : rop_spec) : rop :=
 
 (* observation of one outgoing request, headers projected on the case's key list *)
 Record wobs := mkW {
-  wo_method : bytes; wo_query : bytes; wo_headers : amap;
+  wo_method : bytes; wo_path : bytes; wo_query : bytes; wo_headers : amap;
   wo_cookies : list (bytes * bytes); wo_body : option bytes
 }.
 
@@ -98,7 +98,7 @@ Definition project_headers (keys : list bytes) (h : amap) : amap :=
   filter (fun e => nonempty (snd e)) (map (fun k => (k, hget k h)) keys).
 
 Definition wire_eqb (keys : list bytes) (w : wire) (o : wobs) : bool :=
-  bytes_eqb (w_method w) (wo_method o) && bytes_eqb (w_query w) (wo_query o) &&
+  bytes_eqb (w_method w) (wo_method o) && bytes_eqb (w_path w) (wo_path o) && bytes_eqb (w_query w) (wo_query o) &&
   list_eqb entry_eqb (project_headers keys (w_headers w)) (wo_headers o) &&
   list_eqb pair_eqb (w_cookies w) (wo_cookies o) &&
   opt_bytes_eqb (w_body w) (wo_body o).
